@@ -204,8 +204,9 @@ Definition panicking_by_contract (op : bytes) : bool :=
              "ndt.opadd"; "ndt.opsub"; "d8.opaddm"; "d8.opsubm"]%string
   (* deprecated panicking constructors / accessors *)
   || any_of op ["ts.tzp"; "ts.tzmsp"; "ts.naive_from"; "ts.ofns"; "ts.naive_ofns"]%string
-  (* panicking by documentation, infallible by type (not entry points of C15) *)
-  || any_of op ["d8.wfirstp"; "d8.wlastp"; "d8.wdaysp"; "ts.systime"; "ts.tosys"]%string.
+  (* panicking by documentation, infallible by type (not entry points of C15); SubsecRound is defined
+     over the Add / Sub operators of its carrier (operator arithmetic) *)
+  || any_of op ["d8.wfirstp"; "d8.wlastp"; "d8.wdaysp"; "ts.systime"; "ts.tosys"; "rd.rsub"; "rd.tsub"]%string.
 
 Definition bad_args (out : val) : bool :=
   match out with VErr n => bytes_eqb n B"BADARGS" || bytes_eqb n B"NOOP" | _ => false end.
